@@ -326,7 +326,7 @@ pub fn gen_world(rng: &mut Rng, prop: &str) -> WorldCfg {
         start_time: 1_000_000_000 + rng.below(3600 * 24),
         prefix_vamms,
         roles_trade: spare_ok && matches!(prop, "C05" | "C14" | "C16" | "C20") && rng.chance(1, 3),
-        spare_if: if spare_ok && matches!(prop, "C03" | "C04" | "C06" | "C07" | "C11" | "C12") && rng.chance(1, 5) {
+        spare_if: if spare_ok && matches!(prop, "C03" | "C04" | "C06" | "C07" | "C11" | "C12" | "C14") && rng.chance(1, 5) {
             Some(match rng.below(3) {
                 0 => 0,
                 1 => d,
